@@ -173,6 +173,9 @@ class VHDX(AlignedStream):
         return b"".join(sectors_read)
 
     def _read(self, offset: int, length: int) -> bytes:
+        # The stream layer reads whole buffers, don't read past the end of the disk
+        length = min(length, self.size - offset)
+
         sector = offset // self.sector_size
         count = (length + self.sector_size - 1) // self.sector_size
 
